@@ -16,6 +16,7 @@ import (
 	"golang.org/x/sync/errgroup"
 
 	"github.com/thought-machine/please/src/fs"
+	"github.com/thought-machine/please/src/verifhook"
 )
 
 // OutDir is the root output directory for everything.
@@ -837,6 +838,7 @@ func (target *BuildTarget) dependenciesFor(label BuildLabel) []*BuildTarget {
 
 // FinishBuild marks this target as having built.
 func (target *BuildTarget) FinishBuild() {
+	verifhook.Event("finish", target.Label.String(), target.State().String())
 	close(target.finishedBuilding)
 }
 
@@ -1220,6 +1222,7 @@ func (target *BuildTarget) State() BuildTargetState {
 
 // SetState sets a target's current state.
 func (target *BuildTarget) SetState(state BuildTargetState) {
+	verifhook.Event("state", target.Label.String(), target.State().String()+">"+state.String())
 	atomic.StoreInt32(&target.state, int32(state))
 }
 
@@ -1229,6 +1232,13 @@ func (target *BuildTarget) SetState(state BuildTargetState) {
 // one thread simultaneously, but this one can be attempted by several at once
 // (eg. if a depends on b and c, which finish building simultaneously, they race to queue a).
 func (target *BuildTarget) SyncUpdateState(before, after BuildTargetState) bool {
+	if verifhook.Enabled {
+		ok := atomic.CompareAndSwapInt32(&target.state, int32(before), int32(after))
+		if ok {
+			verifhook.Event("state", target.Label.String(), before.String()+">"+after.String())
+		}
+		return ok
+	}
 	return atomic.CompareAndSwapInt32(&target.state, int32(before), int32(after))
 }
 
